@@ -93,16 +93,25 @@ let parse_cookie (s : string) : cterm =
                | None -> failwith "field") (split_on ',' f))
   | _ -> failwith ("cookie " ^ s)
 
+(* behaviour of the PAR endpoint during one login: comma separated answers to the successive attempts, "-" = none;
+   k:<sval> healthy answer with that request_uri | e 5xx | c 4xx | m undecodable 2xx | t no answer until the client's timeout | u unreachable *)
+let parse_reply (t : string) : par_reply =
+  if String.length t > 2 && String.sub t 0 2 = "k:" then ParOk (parse_sval (String.sub t 2 (String.length t - 2)))
+  else match t with
+    | "e" -> ParServerError | "c" -> ParClientError | "m" -> ParMalformed | "t" -> ParTimeout | "u" -> ParUnreachable
+    | _ -> failwith ("par reply " ^ t)
+
 let () = register "alogin" (fun toks ->
     match split_bar toks with
-    | [cfg; [host; xfh; path; level; locale; prompt]; [rnd; referer; par_uri]] ->
+    | [cfg; [host; xfh; path; level; locale; prompt]; [rnd; referer; replies]] ->
       let c = parse_cfg cfg in
       let q = { r_host = bytes_of_hex host; r_xfh = bytes_of_hex xfh; r_path = bytes_of_hex path;
                 r_level = bytes_of_hex level; r_locale = bytes_of_hex locale; r_prompt = bytes_of_hex prompt } in
-      let outs = entry_login c q (n_of_int (int_of_string rnd)) (parse_sval referer) (parse_sval par_uri) in
+      let outs = entry_login c q (n_of_int (int_of_string rnd)) (parse_sval referer) (List.map parse_reply (split_on ',' replies)) in
       print_endline (String.concat " || " (List.map (fun o ->
-          Printf.sprintf "ok=%s browser=%s back=%s cookie=%s rnd=%d" (zb o.lo_ok) (show_params o.lo_browser) (show_back o.lo_back)
-            (show_cookie o.lo_cookie) (int_of_n o.lo_rnd)) outs))
+          (* the generator counter after a failed login is not observable from outside *)
+          Printf.sprintf "ok=%s browser=%s back=%s cookie=%s rnd=%s" (zb o.lo_ok) (show_params o.lo_browser) (show_back o.lo_back)
+            (show_cookie o.lo_cookie) (if o.lo_ok then string_of_int (int_of_n o.lo_rnd) else "-")) outs))
     | _ -> print_endline "?bad alogin line")
 
 let () = register "alogout" (fun toks ->
